@@ -40,9 +40,12 @@ def swap_sides(e):
 
 
 def hash_feed(e):
-    if e.get('op') == 'hashes' and e.get('obs') and e['obs'][0]['feed']:
-        e['obs'][0]['feed'] = e['obs'][0]['feed'] + ['u8:1']
-        return len(e['obs']) > 1
+    # two values that fed different data now feed the same: the feed is no longer injective on the key
+    if e.get('op') == 'hashes' and e.get('obs'):
+        for j in range(1, len(e['obs'])):
+            if e['obs'][j]['feed'] != e['obs'][0]['feed']:
+                e['obs'][0]['feed'] = list(e['obs'][j]['feed'])
+                return True
     return False
 
 
